@@ -86,7 +86,8 @@ class ArffAttrReader(Filter[Iterable[str], Iterable[Tuple[str,Callable]]]):
                     while item.rstrip()[-1] != q or item.rstrip()[-2]=="\\":
                         item += next(items)
 
-                    item = item.strip().rstrip()[1:-1].replace("\\",'')
+                    #a backslash escapes the character after it (so a doubled backslash stands for one backslash)
+                    item = re.sub(r"\\(.)", r"\1", item.strip().rstrip()[1:-1])
                 else:
                     item = item.strip()
 
